@@ -69,7 +69,7 @@ def main():
                    "enable": "/verif/sim depends on /repo/netconf (path dependency, features [junos, tls, ssh, verif]) and, through the shadow manifest /verif/shadow/junos-agent ([lib] path=/repo/junos-agent/src/lib.rs, tokio -> /verif/shim/tokio), on the agent with feature verif; every check runs `cargo build --release --offline` in /verif first, which recompiles /repo's working tree",
                    "baseline_off_cmd": "cd /repo && cargo test --workspace --no-fail-fast --offline",
                    "source_commits": hooks[::-1], "add_only": True},
-         "engines": [{"name": k, "path": "/verif/sim", "serves_properties": v, "kind_free_text": kinds[k]} for k,v in engines.items()],
+         "engines": [{"name": k, "path": "/verif/sim", "serves_properties": v, "kind_free_text": kinds.get(k, " + ".join(kinds.get(x.strip().split("(")[0], x) for x in k.split("+")))} for k,v in engines.items()],
          "checks": checks,
          "not_applicable": na,
          "notes": "All checks: ./check.sh <ID> quick|thorough; replay: ./check.sh replay <file>; known findings: /verif/known_findings.json; design: /verif/DESIGN.md"}
